@@ -124,14 +124,15 @@ theorem profile_double_charge_counterexample :
      byName cxLoad.req "GPU" = 1) := by
   decide +kernel
 
-/-! ### "the pool a RUNNING task is resident in is the pool recorded in the task" is FALSE of the
-current model (and the model disagrees with /repo on this input: a model-fidelity finding)
+/-! ### the same task placed twice in one scheduler answer: the model follows the second placement
 
 When one scheduler answer places the same task twice, `__create_events_from_task_placement` re-schedules the
 task and mutates the cached TASK_PLACEMENT event *object* — which at that moment is still in the local list
-`simulator_events`, not in the queue. `Model/Sim.lean` edits queued events only (`editEvent`), so in the model
-the event keeps the first placement while the task records the second one's pool. /repo places the task in the
-pool of the second placement (checked with the end-to-end correspondence, see `docs/ledger_run.md`). -/
+`simulator_events` of `__handle_scheduler_finish`, not in the queue. `Model/Sim.lean` used to edit queued events
+only (`editEvent`), so the pending event kept the first placement while the task recorded the second one's pool
+(a model-fidelity defect found by the ledger slice, `docs/ledger_run.md` Findings 3). Repaired:
+`handleSchedulerFinish` applies the same edit to its pending list (`Sim.cachedOf` / `Sim.editPending`); the
+end-to-end correspondence covers it with a duplicate-placing policy (`docs/dupfix.md`). -/
 
 def cxStrat3 : Strategy := ⟨0, false, 1, 5, [(⟨"GPU", none⟩, 1)]⟩
 
@@ -149,9 +150,20 @@ def cxWorld3 : SimS :=
                     { kind := .place, task := ⟨0, 0⟩, time := some 2, pool := some 1, strat := some cxStrat3 }], 1, none⟩,
                   ⟨[], 1, none⟩, ⟨[], 1, none⟩, ⟨[], 1, none⟩] }
 
-/-- The two placements of the first answer, processed as `__handle_scheduler_finish` does: the events of all
-placements are collected first and queued afterwards. -/
+/-- The two placements of the first answer, processed as `handleSchedulerFinish` (`__handle_scheduler_finish`)
+does: the events of all placements are collected first — the second placement re-times the cached event of the
+first one, which is still in the local list (`cachedOf` / `editPending`) — and queued afterwards, sorted. -/
 def cxTwice : SimM Unit := do
+  let p1 : PlacementS := { kind := .place, task := ⟨0, 0⟩, time := some 2, pool := some 0, strat := some cxStrat3 }
+  let p2 : PlacementS := { kind := .place, task := ⟨0, 0⟩, time := some 2, pool := some 1, strat := some cxStrat3 }
+  let e1 ← placementEvents 1 p1
+  let c := cachedOf (← get) p2
+  let e2 ← placementEvents 1 p2
+  for e in Heap.pySorted SEvent.lt (editPending c p2 e1 ++ e2) do addEvent e
+
+/-- The same without the edit of the pending list (the model before the repair: `editEvent` reaches queued
+events only). -/
+def cxTwiceOld : SimM Unit := do
   let e1 ← placementEvents 1 { kind := .place, task := ⟨0, 0⟩, time := some 2, pool := some 0, strat := some cxStrat3 }
   let e2 ← placementEvents 1 { kind := .place, task := ⟨0, 0⟩, time := some 2, pool := some 1, strat := some cxStrat3 }
   for e in e1 ++ e2 do addEvent e
@@ -160,15 +172,26 @@ def cxTwice : SimM Unit := do
 def cxState3 : SimS := { cxWorld3 with graphs := cxWorld3.allGraphs, metas := cxWorld3.allMeta, loaderReleased := true }
 
 set_option maxRecDepth 100000 in
-/-- **COUNTEREXAMPLE (current model): the queued TASK_PLACEMENT event and the task disagree on the pool.**
-After the two placements of one answer for the same task, the only queued event places the task on pool 0 while
-the task is SCHEDULED with `pool = some 1`: `__handle_task_placement` will make it resident in pool 0, and
-`__handle_task_finished` will try to remove it from pool 1. (`#eval` of the whole run of `cxWorld3`: after 9
-loop iterations the task is RUNNING, resident in pool 0 only, `task.pool = some 1`; the run aborts with
-ValueError at time 7. The whole run is not evaluated in the kernel here: `get_schedulable_tasks` of the graph
-model does not reduce by `decide`.) -/
-theorem duplicate_placement_model_counterexample :
+/-- **The repaired model follows the second placement** (as /repo does: the cached event object is mutated
+wherever it is). After the two placements of one answer for the same task, the only queued event is the
+TASK_PLACEMENT event created by the first placement (id 0), it carries the SECOND placement (pool 1, its time),
+and the task is SCHEDULED with `pool = some 1`: event and task agree. (`#eval` of the whole run
+`Sim.simulate cxWorld3 50`: TASK_PLACEMENT row on `p1` at time 2, TASK_FINISHED at 7, normal end at 9. The whole
+run is not evaluated in the kernel here: `get_schedulable_tasks` of the graph model does not reduce by `decide`.) -/
+theorem duplicate_placement_follows_second :
     let s := ((ExceptT.run cxTwice).run cxState3).2
+    s.queue.toList.map (fun e => (e.ev.eid, e.ev.etype, e.ev.time, e.placement.bind (·.pool))) =
+      [(0, ET.taskPlacement, 2, some 1)] ∧
+    s.future.get? ⟨0, 0⟩ = some 0 ∧
+    (taskAt s.graphs ⟨0, 0⟩).map (fun x => (decide (x.state = .scheduled), x.pool)) = some (true, some 1) := by
+  decide +kernel
+
+set_option maxRecDepth 100000 in
+/-- What the edit of the pending list is needed for: without it (the model as it was, `cxTwiceOld`) the queued
+event keeps the first placement (pool 0) while the task records pool 1 — `__handle_task_placement` would make
+the task resident in pool 0 and `__handle_task_finished` would try to remove it from pool 1. -/
+theorem duplicate_placement_needs_pending_edit :
+    let s := ((ExceptT.run cxTwiceOld).run cxState3).2
     s.queue.toList.map (fun e => (e.ev.etype, e.placement.bind (·.pool))) = [(ET.taskPlacement, some 0)] ∧
     (taskAt s.graphs ⟨0, 0⟩).map (fun x => (decide (x.state = .scheduled), x.pool)) = some (true, some 1) := by
   decide +kernel
